@@ -47,7 +47,8 @@ Clause(r) ==
        ELSE IF r.status # "accept" THEN "ok"
        ELSE IF ~r.canon_ok \/ (e = "accept" /\ r.canon # CanonListAnswers(r.cls, r.la)) THEN "canonical"
        ELSE IF ~r.idempotent THEN "idempotent" ELSE "ok"
-  ELSE LET e == IF r.ev = "lgroup" THEN LGExpect(r) ELSE IF r.ev = "nested" THEN NestedExpect(r.chain) ELSE SquareExpect(r)
+  ELSE LET e == IF r.ev = "lgroup" THEN LGExpect(r) ELSE IF r.ev = "nested" THEN NestedExpect(r.chain)
+                 ELSE IF r.ev = "interval" THEN IntervalExpect(r) ELSE SquareExpect(r)
            c == Common(r, e) IN
        IF c = "skip" THEN "ok" ELSE IF c # "ok" THEN c
        ELSE IF r.status # "accept" THEN "ok"
